@@ -1,11 +1,15 @@
 use crate::engine::Runner;
 
 pub mod c01;
+pub mod c02;
+pub mod c03;
 pub mod c20;
 
 pub fn dispatch(r: &mut Runner) -> bool {
     match r.id.as_str() {
         "C01" => c01::run(r),
+        "C02" => c02::run(r),
+        "C03" => c03::run(r),
         "C20" => c20::run(r),
         _ => return false,
     }
